@@ -5,4 +5,5 @@ From CS Require Import Base.Prelude Model.Gc.
 Extraction Language OCaml.
 
 Extraction "../ocaml/gen/gc_model.ml" step init mkCfg default_skew ret_cutoff
-  drv_begin drv_delete drv_finish drv_restart pin_in_window deletes.
+  drv_begin drv_delete drv_finish drv_restart drv_begin_x drv_delete_x drv_finish_x
+  pin_in_window deletes.
